@@ -9,6 +9,35 @@ CHECKS = {
                 assumptions=["math/big is correct"]),
 }
 
+CHECKS.update({
+    "C04": dict(bin="c04", level="exploration",
+                rule="limb corners: full Cartesian products of per-limb corner values up to the top of the documented headroom "
+                     "(u64 {0,1,2^51-1,2^51,2^52-1,2^54-1}; u32 even {0,1,2^26-1,2^26,3*2^26-1} / odd {0,1,2^25-1,2^25,3*2^25-1}) for "
+                     "Mul, the portable feMulGeneric/fePow2kGeneric (hook, every 64-bit build), Sub, Add, Square, Square2, Pow2k "
+                     "(k in 1,2,5,10,50,100,250), Mul121666, Neg, ToBytes, Invert, SqrtRatioI, predicates, aliasing forms; field values: the "
+                     "alphabet Phi (0,1,2,19, p-19..p-1, the 19 strings in [p,2^255), each with bit 255 clear/set, sqrt(-1), d, 2d, every 2^k, "
+                     "limb seams, seed-derived generic values) for SetBytes/ToBytes/Invert/InvSqrt, Phi x Phi for SqrtRatioI/Equal/"
+                     "ConditionalSelect/Assign/Swap (choice 0 and 1), all vectors of length 0..4 over a 7-element set with two zero "
+                     "representations for BatchInvert, a 512-bit alphabet for SetBytesWide; AVX2 (config avx2 only): every "
+                     "fieldElement2625x4 routine and lazy point step on radix-2^25.5 lane corners within the ranges the library feeds them. "
+                     "Each result is compared with math/big through ToBytes AND through its raw limbs, and its limbs must respect the "
+                     "output bound the code documents. A case is non-trivial when an operand is in an unreduced representation "
+                     "(some limb >= 2^51 / 2^26 / 2^25), and for value-level cases when the input is not a canonical reduced string "
+                     "or the reference verdict is not the trivial one (non-zero inverse, decided square/non-square, distinct operands)",
+                assumptions=["math/big is correct", "absence of word wrap-around for non-corner limb values rests on the monotonicity argument (DESIGN 6, C04), not on enumeration",
+                             "value-level routines are decided on the alphabet Phi, not on all 2^255 values"]),
+    "C20": dict(bin="c20", level="exploration",
+                rule="complete enumeration, in each configuration, of every embedded constant and table entry in every form it is stored or served in: "
+                     "raw limbs (value recomputed from the limbs; limbs inside the documented input headroom), ToBytes, the 256+64+64 packed "
+                     "96-byte entries, the freshly unpacked and the live affine tables, every Lookup(x) (x in [-8,8] for each of the 32 "
+                     "sub-tables, every odd x for the NAF tables; Go and assembly paths), the vector (cached) tables generated at start-up under "
+                     "AVX2 (raw lanes and through setCached), base points in all forms, the 8 torsion points by value, [2^128]B, scalar "
+                     "Montgomery constants (L, R, RR, LFACTOR), BASEPOINT_ORDER, order, lattice constants, Elligator constants, "
+                     "noncanonicalSignBits, x25519.Basepoint, the four VerifyOptions presets flag by flag; oracle = refconst (math/big "
+                     "derivations of the published definitions). Non-trivial = the defining value is not 0, 1 or the neutral element",
+                assumptions=["math/big is correct", "the published definitions (RFC 7748/8032/9380/9496, README preset semantics) are transcribed correctly; pinned by ref-selftest"]),
+})
+
 NOT_APPLICABLE = {}
 
 ENGINES = [
